@@ -117,7 +117,11 @@ def get_number_of_steps(
     rounding (e.g. 0.3 with `dt=0.1`) counts as reached. """
     quotient = (end_time - start_time) / dt
     nearest = np.round(quotient)
-    if abs(quotient - nearest) < 1.0e-8:
+    # the times are themselves rounded: a few units in their last place,
+    # measured in steps (matters when |start_time|/dt is large)
+    tolerance = max(1.0e-8, 4.0 * np.finfo(float).eps \
+                    * max(abs(start_time), abs(end_time)) / abs(dt))
+    if abs(quotient - nearest) < tolerance:
         return int(nearest)
     return int(quotient)
 
